@@ -536,6 +536,9 @@ def _sql_sites(prog, mod_name):
                             bindings = list(elts)
                     elif isinstance(v, (ast.List, ast.Tuple)):
                         b = v
+                if isinstance(b, ast.BinOp) and isinstance(b.op, ast.Add) and isinstance(b.right, (ast.Tuple, ast.List)) and not isinstance(b.left, (ast.Tuple, ast.List)):
+                    # values + (bucket_id,)  ==  (*values, bucket_id)
+                    b = ast.copy_location(ast.Tuple(elts=[ast.Starred(value=b.left, ctx=ast.Load())] + list(b.right.elts), ctx=ast.Load()), b)
                 if isinstance(b, (ast.List, ast.Tuple)):
                     if any(isinstance(x, ast.Starred) for x in b.elts):
                         # (*values, bucket_id): only the trailing fixed part is positional from the end
